@@ -69,6 +69,9 @@ KF_CANCEL = "simplify/test-point-in-binary64/cancelling-huge-coefficients"
 KF_RESTORE = "symbolic/restore-names/more-than-ten-named-variables/index-prefix"
 KF_TRIANGULAR = "solve/redundant-float-equations/not-back-substituted"
 KF_FLAT = "simplify/flat-marker-collision/parenthesised-text-repeated-inside-divisor"
+KF_DROPPED = "solve/redundant-exact-equations/pinned-variable-missing-from-the-solved-form"
+KF_SINGULAR = "solve/float-coefficients/isolated-variables-form-a-singular-block"
+KF_PINNED = "solve/redundant-exact-equations/free-variable-pinned-by-the-solved-form"
 CMP_TEXT = ["<", "<=", ">", ">=", "=", "==", "!="]
 TOL = Fr(1, 10 ** 9)
 MARGIN = Fr(1, 10 ** 6)
@@ -923,12 +926,28 @@ def post_solve(rec, replies, rng, hist, findings):
     # pivot; the 'solved form' then pins a free variable or (with further equations) is no solution at all. The same
     # systems with integer / binary-exact coefficients are on the exact stream and fully checked.
     redundant_float = (not exact) and rk < len(fi)
-    if bad:
+    # F76: with binary-exact coefficients a REDUNDANT (consistent) equation makes solve return fewer lines than the rank: a
+    # variable the system pins is simply missing from the solved form (seen: 4 equations in 3 unknowns, x2 dropped).
+    dropped_exact = exact and rk < len(fi) and len(out_items) < rk
+    # F77: the variables solve chose to isolate form a SINGULAR block of the coefficient matrix (they cannot be solved for in
+    # terms of the others); with float coefficients the elimination's rounding noise leaves a spurious pivot of size 1e-17 and
+    # the returned lines carry coefficients of size 1e17 - no solution of the input at all.
+    singular_block = (not exact) and bool(lhs) and U.rank([[f[1 + i] for i in lhs] for f in fi]) < len(lhs)
+    if bad and dropped_exact:
+        findings.append(Finding("monitor", KF_DROPPED, "the point %s=%s satisfies the returned solved form %r but an input equation has residual %s: the input has rank %d, the solved form fixes %d variables" % (
+                                    names, pt_json(bad[0]), rec["out"], bad[1], rk, len(out_items)), dict(case, point=pt_json(bad[0]))))
+    elif bad and singular_block and not redundant_float:
+        findings.append(Finding("monitor", KF_SINGULAR, "the isolated variables %r form a singular block of the coefficient matrix; the returned lines %r are no solution (residual %s at %s)" % (
+                                    [names[i] for i in lhs], rec["out"], bad[1], pt_json(bad[0])), dict(case, point=pt_json(bad[0]))))
+    elif bad:
         findings.append(Finding("monitor", KF_REDUNDANT if redundant_float else "solve/solution-of-output-violates-input/%s" % ("exact" if exact else "toleranced"),
                                 "the point %s=%s satisfies the returned solved form but an input equation has residual %s" % (names, pt_json(bad[0]), bad[1]),
                                 dict(case, point=pt_json(bad[0]))))
     elif rk != len(out_items):
-        findings.append(Finding("monitor", KF_REDUNDANT if redundant_float else "solve/dimension-differs",
+        # F78: the other direction of F76 - with a redundant exact equation the solved form can fix MORE variables than the rank
+        # (every point of it solves the system, but solutions of the system are lost)
+        pinned_exact = exact and rk < len(fi) and len(out_items) > rk
+        findings.append(Finding("monitor", KF_REDUNDANT if redundant_float else (KF_DROPPED if dropped_exact else (KF_PINNED if pinned_exact else "solve/dimension-differs")),
                                 "input has rank %d but the solved form fixes %d variables (solution sets of different dimension)" % (rk, len(out_items)), case))
     hist["solve:rank=%d/n=%d" % (rk, n)] = hist.get("solve:rank=%d/n=%d" % (rk, n), 0) + 1
     # ---- validator
